@@ -243,7 +243,7 @@ def run(ctx):
     for i in range(2 if quick else 10):
         tasks.append((rng.randrange(1 << 30), "toylq", 5 if quick else 10))
     # (A) spec -> code: scripted stage results of the Pipeline universe replayed through the real genotype()
-    scripts, total = scripts_from_spec(ctx, rng, 1400 if quick else 30000)
+    scripts, total = scripts_from_spec(ctx, rng, 1400 if quick else 15000)
     per = 100 if quick else 500
     stasks = [(rng.randrange(1 << 30), scripts[i:i + per]) for i in range(0, len(scripts), per)]
     sruns = [r for out in par.pmap(_script_task, stasks) for r in out]
